@@ -864,6 +864,13 @@ def _ik_args(case, body):
     else:
         T = case["Tfree"]
     q0 = qstar + case["delta"]
+    if case.get("warm") is not None:
+        # a WARM start: off the solution by a fraction / small multiple of the tolerances (a tracking loop re-solving
+        # from its last answer), so that the very first convergence test decides - in whichever frame it is made
+        d = np.asarray(case["delta"], dtype=float)
+        nd = float(np.linalg.norm(d))
+        d = d / nd if nd > 0 else np.ones_like(d) / math.sqrt(len(d))
+        q0 = qstar + d * float(case["warm"]) * min(float(case["eomg"]), float(case["ev"]))
     return (S, M, carr(T), carr(q0), float(case["eomg"]), float(case["ev"]))
 
 
@@ -892,7 +899,10 @@ def _ik_shape(name, out, n):
 def _ik_labels(ctx, case):
     ctx.label("goal " + case["goal"])
     d = float(np.abs(case["delta"]).max()) if len(case["delta"]) else 0.0
-    ctx.label("start " + ("exact" if d == 0 else "near" if d <= 0.05 else "medium" if d <= 0.6 else "far"))
+    if case.get("warm") is not None:
+        ctx.label("start warm (within %s tolerances of the solution)" % ("1" if case["warm"] <= 1 else "30"))
+    else:
+        ctx.label("start " + ("exact" if d == 0 else "near" if d <= 0.05 else "medium" if d <= 0.6 else "far"))
     ctx.label("n=%d" % case["S"].shape[1])
 
 
@@ -1231,7 +1241,8 @@ def s_ik():
         return st.fixed_dictionaries({
             "S": chain_strategy(n), "M": FRAME5, "qstar": joint_vec(n), "delta": _ik_delta(n),
             "goal": st.sampled_from(["reachable", "reachable", "reachable", "free"]), "Tfree": FRAME5,
-            "eomg": _IKTOL, "ev": _IKTOL})
+            "eomg": _IKTOL, "ev": _IKTOL,
+            "warm": st.one_of(st.none(), st.none(), st.none(), G.log_uniform(0.1, 30.0))})
     return per_n(1, 7, build)
 
 
